@@ -68,6 +68,7 @@ class World:
         self.sem_audit = None
         self.lat_mode = self.knobs.get('latency', 'none')
         self.bw_events = []
+        self.body_release = {}
 
     # ---- hooks called by stubs ---------------------------------------------
     def probe(self, name, n=1):
@@ -210,6 +211,9 @@ class World:
                 tagname = world._tag_enter(fn) if self.role == 'request' and \
                     hasattr(world, 'task_tag') else False
 
+                body = (getattr(fn, '_main_kwargs', None) or {}).get('fileobj')
+                owned = world.body_release.get(id(body)) if body is not None else None
+
                 def run(*a, **k):
                     try:
                         return fn(*a, **k)
@@ -217,6 +221,8 @@ class World:
                         ex.occ -= 1
                         if tagname is not False:
                             world.tag_occ[tagname] -= 1
+                        if owned is not None and owned[0] is body:
+                            owned[1]()
                 run._task = fn
                 return super().submit(run, *args, **kwargs)
 
@@ -686,7 +692,10 @@ class World:
             world.live_chunk_readers += 1
             if world.live_chunk_readers > world.max_live_chunk_readers:
                 world.max_live_chunk_readers = world.live_chunk_readers
-            if not world.dirty and cfg is not None:
+            if cfg is not None:
+                # (a body stops counting when it is closed or when the task that
+                # owns it has finished, whichever comes first - so the count
+                # stays an under-approximation also after failures and cancels)
                 bound = cfg['max_in_memory_upload_chunks'] + cfg['max_submission_concurrency']
                 if world.live_chunk_readers > bound:
                     world.violation(
@@ -695,7 +704,8 @@ class World:
                         'max_in_memory_upload_chunks + max_submission_concurrency = %d'
                         % (world.live_chunk_readers, bound))
                 adj = world.knobs.get('adjuster') or {}
-                neutral = adj.get('max_parts', 10000) >= 10000 and adj.get('min_size', 1) <= 1
+                neutral = adj.get('max_parts', 10000) >= 10000 and adj.get('min_size', 1) <= 1 \
+                    and not world.dirty
                 # a stream that returns fewer bytes than asked for although more
                 # follow makes the library misjudge the size class; that input is
                 # outside the statement ("any object/stream size")
@@ -710,12 +720,16 @@ class World:
             closed = [False]
             real_close = rfc.close
 
-            def close():
+            def release():
                 if not closed[0]:
                     closed[0] = True
                     world.live_chunk_readers -= 1
+
+            def close():
+                release()
                 return real_close()
             rfc.close = close
+            world.body_release[id(rfc)] = (rfc, release)
             return rfc
         osutil.open_file_chunk_reader_from_fileobj = wrapped
 
